@@ -16,11 +16,14 @@ template<class F> static bool blocks(F f) {
     return b;
 }
 
-static void arbitrary_session_state(File & f, long & d) {
+static void arbitrary_session_state(File & f, long & d, bool readSession = false) {
     UncompressedFile & u = f.m_uncompressedFile;
-    // stream positions: 0 <= tellg <= tellp, stream still open (end not declared yet)
+    // stream positions: stream still open (end not declared yet).  Write session: 0 <= tellg <= tellp.
+    // Read session: the decoder skips objects by relative seeks, so the get position may also run ahead of the
+    // put position (an object whose declared end is not inflated yet).
     long tg = (long)vp_u64("tellg"), tp = (long)vp_u64("tellp");
-    vp_assume(tg >= 0); vp_assume(tp >= tg); vp_assume(tp < (1L << 48));
+    vp_assume(tg >= 0); vp_assume(tp >= 0); vp_assume(tp < (1L << 48)); vp_assume(tg < (1L << 48));
+    if (!readSession) vp_assume(tp >= tg);
     u.m_tellg = tg; u.m_tellp = tp;
     d = tp - tg;
 }
@@ -57,7 +60,7 @@ extern "C" void h_read_session() {
     File f;
     uint32_t c = vp_u32("containerSize"); vp_assume(c >= 1);
     f.setDefaultLogContainerSize(c);
-    long d; arbitrary_session_state(f, d);
+    long d; arbitrary_session_state(f, d, true);
     uint32_t k = (uint32_t)vp_concrete(vp_choose(3, "queued"));
     for (uint32_t i = 0; i < k; i++) f.m_readWriteQueue.m_queue.push(new ObjectHeaderBase(1, ObjectType::UNKNOWN));
     long n = (long)vp_u64("chunk");                         // one read chunk of the decoder (field or payload)
@@ -68,7 +71,8 @@ extern "C" void h_read_session() {
     bool codec = blocks([&] { f.m_uncompressedFile.read(buf, n); });
     bool infl = blocks([&] { f.m_uncompressedFile.write(lc); });
     vp_note("app", app); vp_note("codec", codec); vp_note("infl", infl);
-    vp_assert(!(app && codec && infl), "read session: application (queue empty), decoder (waiting for a chunk) and inflater (stream full) all wait for each other");
+    if (d >= 0) vp_assert(!(app && codec && infl), "read session: application (queue empty), decoder (waiting for a chunk) and inflater (stream full) all wait for each other");
+    else vp_assert(!(app && codec && infl), "read session, get position ahead of put position after a skip: application, decoder and inflater all wait for each other");
     // O3: close() order for reading: abort stream, abort queue -> nobody waits
     f.m_uncompressedFile.abort(); f.m_readWriteQueue.abort();
     VP_ASSERT(!blocks([&] { f.m_uncompressedFile.read(buf, n > 8 ? 0 : 0); }));
